@@ -88,10 +88,19 @@ class SimultaneousScheduler(Scheduler):
             event = self.handle_delayed_event(model.events.pop(), dt=model.dt)
 
             if event:
-                model.agents[event.receiver_id].receive_event(event)
+                # ids are not list positions once agents have been deleted or reconfigured
+                receiver = None
+                if type(event.receiver_id) is int and 0 <= event.receiver_id < len(model.agents) \
+                        and model.agents[event.receiver_id].id == event.receiver_id:
+                    receiver = model.agents[event.receiver_id]
+                else:
+                    receiver = model.agent(event.receiver_id)
 
-                if model.data_collector:
-                    model.data_collector.record_event(time, event)
+                if receiver is not None:
+                    receiver.receive_event(event)
+
+                    if model.data_collector:
+                        model.data_collector.record_event(time, event)
 
         # give the model a chance to update dynamic properties etc.
 
